@@ -21,7 +21,7 @@ func gridSpecs() []espec {
 	multis := [][]*pcert{
 		{c("root", 0), c("inter", 0)}, {c("root", 0), c("root", 1)}, {c("inter", 0), c("leaf", 0)}, {c("leaf", 0), c("root", 0)},
 		{c("root", 0), c("ssleaf", 0)}, {c("root", 0), c("inter", 0), c("inter", 1)}, {c("root", 2), c("root", 2)}, {c("root", 1), c("cross", 0)},
-		{c("root", 3), c("root", 4), c("root", 0)},
+		{c("root", 3), c("root", 4), c("root", 0)}, {c("root", 0), c("root", 5)}, {c("root", 5), c("inter", 0), c("root", 0)},
 	}
 	for _, m := range multis {
 		out = append(out, espec{What: "pem-multi", Certs: m}, espec{What: "der-concat", Certs: m})
